@@ -743,7 +743,8 @@ def c11(tier, seed):
     aug = [{"names": "xml", "augment": True}, {"names": "plain", "augment": True}, {"names": "unicode", "augment": True}]
     plans = [dict(scope="nest", mode="simulate", num=40, depth=8, limit=300, mc=False, variants=aug),
              dict(scope="cmds", mode="simulate", num=40, depth=9, limit=250, mc=False, variants=aug),
-             dict(scope="ign", mode="simulate", num=30, depth=7, limit=200, mc=False, variants=aug)]
+             dict(scope="ign", mode="simulate", num=30, depth=7, limit=200, mc=False, variants=aug),
+             dict(scope="chain", mode="simulate", num=30, depth=9, limit=200, mc=False, variants=aug)]
     if tier == "thorough":
         plans = [dict(p, num=400, limit=3000) for p in plans] + [dict(scope="ren", mode="simulate", num=200, depth=9, limit=1500, mc=False, variants=aug),
                                                                  dict(scope="dh6", mode="simulate", num=200, depth=9, limit=1500, mc=False, variants=aug)]
@@ -925,7 +926,7 @@ def c20(tier, seed):
                         k += 1
     with Pool(16) as pool:
         lines = pool.map(UC.run_case, cases, chunksize=2)
-        sub = pool.map(UC.subprocess_case, [(i, m) for i, m in enumerate(["hang", "0.0", "2.5"] if tier == "quick" else ["hang", "hang", "0.0", "0.4", "1.6", "2.5"])])
+        sub = pool.map(UC.subprocess_case, [(i, m) for i, m in enumerate(["hang", "hang", "0.0", "2.5"] if tier == "quick" else ["hang", "hang", "0.0", "0.0", "0.4", "0.4", "1.6", "2.5", "2.5"])])
     lines += sub
     verdicts, diags = validate.validate(lines, [], trace_module="MhlUpdaterTrace", tag="C20")
     for d in diags[:3]:
